@@ -79,10 +79,17 @@ func runOne(ctx context.Context, solver string, file string, timeout time.Durati
 		dt = time.Since(t0).Seconds()
 		s = out.String()
 	}
-	first := strings.TrimSpace(strings.SplitN(strings.TrimSpace(s), "\n", 2)[0])
-	switch first {
-	case "sat", "unsat", "unknown":
-		return first, s, dt
+	// the answer is the first line that is exactly sat / unsat / unknown (cvc5 prints warnings about the missing
+	// set-logic before it; z3 4.8 prints an error for get-value after unsat behind it)
+	for _, ln := range strings.Split(s, "\n") {
+		ln = strings.TrimSpace(ln)
+		switch ln {
+		case "sat", "unsat", "unknown":
+			return ln, s, dt
+		}
+		if strings.HasPrefix(ln, "(") {
+			break // a model or an error came first: no answer line
+		}
 	}
 	if strings.Contains(s, "timeout") || cctx.Err() != nil {
 		return "timeout", s, dt
